@@ -28,7 +28,8 @@ RULE = ("Hypothesis: spin-orbital expressions (1-3 terms with identical free "
         "input on the spin orbitals of the requested spins; restricted: "
         "models whose tensors depend on spatial labels only (expressions of "
         "V/deltas/unknown tensors); blocks not reported by "
-        "allowed_spin_blocks evaluate to zero. Non-trivial: >= 2 coupled "
+        "allowed_spin_blocks evaluate to zero (this clause also on closed "
+        "single terms of 4-5 tensors). Non-trivial: >= 2 coupled "
         "objects and >= 1 summed index whose spin is not fixed by the "
         "targets.")
 BUDGET = {"quick": 100, "thorough": 1500}
@@ -43,8 +44,25 @@ CFG = Cfg(min_obj=1, max_obj=3, max_terms=3, max_target=4, max_exp=2,
           rank_override={"t2": [(1, 1), (2, 2)]}, weights={"V": 3, "t1": 2})
 
 
+# larger closed single terms for the allowed_spin_blocks clause only
+CFG_BIG = Cfg(min_obj=4, max_obj=5, max_terms=1, max_target=4, max_exp=1,
+              allow_general=False, allow_hyper=False, allow_explicit=False,
+              allow_symbols=False, allow_spin=False, allow_numbered=False,
+              max_slots=16, names=["V", "t1", "t2"],
+              rank_override={"t2": [(1, 1), (1, 1), (2, 2)]},
+              weights={"t2": 3})
+
+
 @st.composite
 def st_case(draw):
+    if draw(st.integers(0, 4)) == 0:
+        base = draw(st_expr_case(CFG_BIG))
+        if len(base["targets"]) >= 2:
+            return {"terms": base["terms"],
+                    "order": list(draw(st.permutations(base["targets"]))),
+                    "spins": [], "only_allowed": True, "expand_eri": True,
+                    "restricted": False, "size": [1, 1],
+                    "mseed": draw(st.integers(0, 2**31))}
     base = draw(st_expr_case(CFG))
     order = list(draw(st.permutations(base["targets"])))
     n = len(order)
@@ -241,6 +259,11 @@ def run_case(case):
         if len(t["objs"]) >= 2 and any(n >= 2 for l, n in cnt.items()
                                        if l not in order):
             nt = True
+    if case.get("only_allowed"):
+        r.nontrivial = nt and bool((v_so != 0).any())
+        r.cls("allowed_spin_blocks_large_term",
+              f"n_obj={sum(len(t['objs']) for t in case['terms'])}")
+        return r
     r.nontrivial = nt and any(nz_blocks.values())
     r.cls("restricted" if restricted else "unrestricted",
           f"expand_eri={case['expand_eri']}", f"ntarget={len(order)}")
